@@ -179,7 +179,7 @@ func (p *Prog) methodsOf(pkgShort, typeName string) []string {
 		if pt, ok := t.(*types.Pointer); ok {
 			t = pt.Elem()
 		}
-		if nt, ok := t.(*types.Named); ok && nt.Obj().Name() == typeName {
+		if nt, ok := t.(*types.Named); ok && (nt.Obj().Name() == typeName || canonTypeName(pkgShort+"."+nt.Obj().Name()) == pkgShort+"."+typeName) {
 			res = append(res, k)
 		}
 	}
